@@ -362,7 +362,7 @@ func (w *World) subWrapped(recv ssa.Value) (bool, string) {
 		return rt.Kind == RCall && rt.Fn != nil && fullFuncName(rt.Fn) == modPath+"/backend.Sub"
 	}
 	p := w.prov(recv, provOpts{deepFields: true, bindParams: true, followCalls: true,
-		opaque: func(f *ssa.Function) bool { return fullFuncName(f) == modPath+"/backend.Sub" },
+		opaque:   func(f *ssa.Function) bool { return fullFuncName(f) == modPath+"/backend.Sub" },
 		bindStop: constructorParam, // what the constructors' callers pass is the raw device
 		callThrough: func(c *ssa.Call) ([]ssa.Value, bool) {
 			// x.Writable() writes to whatever x is
